@@ -245,6 +245,9 @@ class Flow:
         """may the callee remove elements from a container reachable from by-reference argument argi?"""
         return self.F.may_remove(call, argi)
 
+    def is_mode_cond(self, e):
+        return mode_test(e) is not None
+
     def const_cond(self, e):
         """True/False if the condition is decided by configuration (stream mode, folded constant), else None"""
         if "val" in e and e["k"] != "Assign":
@@ -367,6 +370,8 @@ class Flow:
         cc = self.const_cond(e)
         if cc is not None:
             st2 = self.expr_plain(e, st)
+            if st2 is not BOT and self.mode is not None and self.is_mode_cond(e):
+                st2 = st2 | {("D", "mode-split")}  # everything below is specific to one stream direction
             return (st2, BOT) if cc else (BOT, st2)
         if k == "Unary" and e["op"] == "!":
             t, f = self.cond(e["e"], st)
@@ -823,6 +828,11 @@ class Collect(Flow):
         if self.mode is not None and is_node(e) and e["k"] == "Ref" and e.get("id") in self.modevars:
             return self.modevars[e["id"]] == self.mode
         return None
+
+    def is_mode_cond(self, e):
+        if mode_test(e) is not None:
+            return True
+        return is_node(e) and e["k"] == "Ref" and e.get("id") in self.modevars
 
     def on_node(self, n, st):
         st = set_facts(n, st)
